@@ -98,3 +98,12 @@ class BLOB(Element):
         ), f"Blob size differs: {msg.size} declared vs {blob_value.size} measured"
 
         self._value = blob_value
+
+    def to_new_message(self):
+        blob = self._new_value
+        return self.new_message_class(
+            name=self.name,
+            size=blob.size,
+            format=blob.format,
+            value=blob.binary_base64,
+        )
